@@ -28,7 +28,7 @@ NOT_DECIDED = ["numerical equality with numpy indexing (the rule shows that the 
                "exceptional exits (a kernel raising between an in-place update and the cache reset)"]
 ASSUMPTIONS = ["numpy semantics of the modelled functions (np.array copies, np.asarray / ensure_type may return the argument, "
                "basic indexing returns a view)", "Topology.subset/join/copy return new objects (C04 decides their content)"]
-FLOORS = {"C03-R1": 12, "C03-R2": 5, "C03-R3": 3, "C03-R4": 8, "C03-R5": 40, "C03-R6": 6}
+FLOORS = {"C03-R1": 12, "C03-R2": 5, "C03-R3": 3, "C03-R4": 8, "C03-R5": 40, "C03-R6": 6, "C03-R7": 12}
 
 TRAJ = "mdtraj/core/trajectory.py"
 ALL_FIELDS = ["xyz", "topology", "time", "unitcell_lengths", "unitcell_angles"]
@@ -66,6 +66,8 @@ def check(ctx):
     from .c05 import flag_identity
     flag_identity(ctx, "C03-R6", [TRAJ], name_filter=lambda q: q.startswith("Trajectory.") and q.count(".") == 1, floor=10)
     r6_inplace_returns(ctx)
+    ctx.rule("C03-R7", "join / stack / slice / atom_slice on model trajectories: each array of the result equals the numpy concatenation / indexing of the operands' arrays, element for element")
+    r7_values(ctx)
     ctx.rule("C03-R5", "public analysis and save functions never store into their trajectory argument nor pass an alias of "
                        "its arrays to a parameter that a callee (Python, Cython or C via non-const pointer) writes")
     mod = ctx.py.mod(TRAJ)
@@ -435,3 +437,195 @@ def r6_inplace_returns(ctx):
             ctx.holds("C03-R6", fn, TRAJ, q, "no `return self`", "the result is built by a callee or is a new object")
     if n_methods < 5:
         raise AnalysisError("only %d Trajectory methods with an `inplace` parameter found" % n_methods)
+
+
+# ---------------------------------------------------------------------------------------------------
+def r7_values(ctx):
+    """join / stack / slice / atom_slice evaluated on model trajectories (sa/tensym.py): every array of the result is, element for element,
+    what numpy indexing / concatenation of the operands' arrays gives; lengths travel with angles; the topology is the copy / join / subset
+    the operation calls for.  The constructor is summarised as "keeps what it is given"."""
+    from ..tensym import TenSym, Ten, Obj, Unsupported as TUnsupported, ShapeError
+    from ..poly import Poly, Rat
+    A = 3
+
+    def ctor(xyz, topology, time=None, unitcell_lengths=None, unitcell_angles=None, **extra):
+        if extra:
+            raise TUnsupported("constructor called with unknown arguments %s" % sorted(extra))
+        o = Obj(_xyz=xyz, _topology=topology, _time=time, _unitcell_lengths=unitcell_lengths, _unitcell_angles=unitcell_angles, _rmsd_traces=None, _isa=("Trajectory",), _built=True)
+        # the public names are properties of the class: reads go to the private fields, the xyz setter drops the cached traces (read off the class, C03-R3)
+        o._getters = {"xyz": lambda s_: s_._xyz, "time": lambda s_: s_._time, "topology": lambda s_: s_._topology, "top": lambda s_: s_._topology,
+                      "unitcell_lengths": lambda s_: s_._unitcell_lengths, "unitcell_angles": lambda s_: s_._unitcell_angles}
+
+        def set_xyz(s_, v):
+            s_._xyz = v
+            s_._rmsd_traces = None
+        o._setters = {"xyz": set_xyz, "time": lambda s_, v: setattr(s_, "_time", v), "topology": lambda s_, v: setattr(s_, "_topology", v),
+                      "unitcell_lengths": lambda s_, v: setattr(s_, "_unitcell_lengths", v), "unitcell_angles": lambda s_, v: setattr(s_, "_unitcell_angles", v)}
+        return o
+
+    def traj(name, F, atoms=A, top=None, traces=False):
+        top = top or Obj(tag=name + ".top")
+        if not hasattr(top, "join"):
+            top.join = lambda other, keep_resSeq=True, _t=top: Obj(tag=("join", _t, other, keep_resSeq))
+            top.subset = lambda idx, _t=top: Obj(tag=("subset", _t, tuple(idx)))
+        o = ctor(Ten.sym(name + ".x", (F, atoms, 3)), top, Ten.sym(name + ".t", (F,)), Ten.sym(name + ".len", (F, 3)), Ten.sym(name + ".ang", (F, 3)))
+        o.n_frames, o.n_atoms, o._have_unitcell = F, atoms, True
+        o._rmsd_traces = Ten.sym(name + ".tr", (F,)) if traces else None
+        o._ctor = ctor
+        return o
+
+    def models():
+        def deepcopy(ev, call):
+            v = ev.ex(call.args[0])
+            return Obj(tag=("copy", v))
+
+        def construct(ev, call):
+            return ctor(*[ev.ex(a) for a in call.args], **{k.arg: ev.ex(k.value) for k in call.keywords})
+        return {"deepcopy": deepcopy, "copy.deepcopy": deepcopy, "Trajectory": construct}
+
+    def cat(ev, parts, axis=0):
+        import ast as _ast
+        node = _ast.parse("np.concatenate(p, axis=%d)" % axis, mode="eval").body
+        sub = TenSym({"p": parts})
+        return sub.ex(node)
+
+    def fld(o, name):
+        g = o.__dict__.get("_getters", {})
+        return g[name](o) if name in g else getattr(o, name)
+
+    def same(ev, got, want):
+        if want is None or got is None:
+            return None if got is want else "is %r, expected %r" % (got, want)
+        try:
+            return ev.first_difference(got, want)
+        except TUnsupported as e:
+            return str(e)
+
+    def report(q, what, problems, fn):
+        ctx.decide(not problems, "C03-R7", fn, TRAJ, q, what, "", "; ".join(problems)[:500])
+
+    def run(q, what, build, spec):
+        fn = ctx.py.func(TRAJ, q)
+        ctx.analysed_functions.add(TRAJ + ":" + q)
+        ev = TenSym({}, models=models())
+        try:
+            me, kwargs = build()
+            got = ev.run_fn(fn, self=me, **kwargs)
+            report(q, what, spec(ev, me, kwargs, got), fn)
+        except ShapeError as e:
+            ctx.violated("C03-R7", fn, TRAJ, q, what, "array operations do not fit: %s" % e)
+        except TUnsupported as e:
+            ctx.undecided("C03-R7", fn, TRAJ, q, what, "not evaluable: %s" % e)
+
+    # ---- join
+    def b_join():
+        top = Obj(tag="top")
+        a, b, c = traj("a", 2, top=top), traj("b", 1, top=top), traj("c", 2, top=top)
+        return a, {"other": [b, c]}
+
+    def s_join(ev, me, kw, got):
+        ts_ = [me] + kw["other"]
+        pr = []
+        if not (isinstance(got, Obj) and getattr(got, "_built", False)):
+            return ["join does not return a new Trajectory"]
+        for field in ("xyz", "time", "unitcell_lengths", "unitcell_angles"):
+            d = same(ev, fld(got, field), cat(ev, [fld(t, field) for t in ts_]))
+            if d:
+                pr.append("%s of the result is not the concatenation of the operands' %s in order (%s)" % (field, field, d))
+        tag = getattr(fld(got, 'topology'), "tag", None)
+        if not (isinstance(tag, tuple) and tag[0] == "copy" and tag[1] is me._topology):
+            pr.append("the topology of the result is not a deep copy of self's")
+        return pr
+    run("Trajectory.join", "join([b, c]): xyz / time / lengths / angles concatenated frame-wise in order self, b, c; topology a deep copy", b_join, s_join)
+
+    def b_join1():
+        top = Obj(tag="top")
+        return traj("a", 2, top=top), {"other": traj("b", 2, top=top)}
+    run("Trajectory.join", "join(b) with a single trajectory", b_join1, lambda ev, me, kw, got: s_join(ev, me, {"other": [kw["other"]]}, got))
+
+    # ---- stack
+    def b_stack():
+        return traj("a", 2, atoms=3), {"other": traj("b", 2, atoms=2)}
+
+    def s_stack(ev, me, kw, got):
+        o = kw["other"]
+        pr = []
+        if not (isinstance(got, Obj) and getattr(got, "_built", False)):
+            return ["stack does not return a new Trajectory"]
+        d = same(ev, fld(got, 'xyz'), cat(ev, [fld(me, 'xyz'), fld(o, 'xyz')], axis=1))
+        if d:
+            pr.append("xyz is not the atom-wise concatenation of self and other (%s)" % d)
+        for field in ("time", "unitcell_lengths", "unitcell_angles"):
+            d = same(ev, fld(got, field), fld(me, field))
+            if d:
+                pr.append("%s of the result is not self's (%s)" % (field, d))
+        tag = getattr(fld(got, 'topology'), "tag", None)
+        if not (isinstance(tag, tuple) and tag[0] == "join" and tag[1] is fld(me, 'topology') and tag[2] is fld(o, 'topology') and tag[3] is True):
+            pr.append("the topology is not self.topology.join(other.topology, keep_resSeq=keep_resSeq)")
+        return pr
+    run("Trajectory.stack", "stack(b): xyz concatenated atom-wise; time and the whole cell from self; topology = join of the two", b_stack, s_stack)
+
+    # ---- slice
+    for key, kdesc in ((slice(0, 2), "0:2"), (slice(None, None, 2), "::2"), ([2, 0], "[2, 0]"), (slice(1, 2), "1:2")):
+        for copy in (True, False):
+            def b_slice(key=key, copy=copy):
+                return traj("a", 3, traces=True), {"key": key, "copy": copy}
+
+            def s_slice(ev, me, kw, got, key=key, copy=copy):
+                pr = []
+                if not (isinstance(got, Obj) and getattr(got, "_built", False)):
+                    return ["slice does not return a new Trajectory"]
+                for field in ("xyz", "time", "unitcell_lengths", "unitcell_angles", "_rmsd_traces"):
+                    want = ev.getitem(fld(me, field), key if not isinstance(key, list) else (key,))
+                    d = same(ev, fld(got, field), want)
+                    if d:
+                        pr.append("%s of the result is not self.%s[key] (%s)" % (field, field, d))
+                tag = getattr(fld(got, 'topology'), "tag", None)
+                if copy and not (isinstance(tag, tuple) and tag[0] == "copy" and tag[1] is me._topology):
+                    pr.append("copy=True: the topology is not a deep copy")
+                if not copy and fld(got, 'topology') is not me._topology:
+                    pr.append("copy=False: the topology is not shared")
+                return pr
+            run("Trajectory.slice", "slice(%s, copy=%s): every per-frame array (incl. cached traces) is self.<array>[key]" % (kdesc, copy), b_slice, s_slice)
+
+    # ---- atom_slice
+    def b_aslice():
+        return traj("a", 2, atoms=4, traces=True), {"atom_indices": [2, 0]}
+
+    def s_aslice(ev, me, kw, got):
+        pr = []
+        if not (isinstance(got, Obj) and getattr(got, "_built", False)) or got is me:
+            return ["atom_slice(inplace=False) does not return a new Trajectory"]
+        d = same(ev, fld(got, 'xyz'), ev.getitem(fld(me, 'xyz'), (slice(None), [2, 0])))
+        if d:
+            pr.append("xyz is not self.xyz[:, atom_indices] (%s)" % d)
+        for field in ("time", "unitcell_lengths", "unitcell_angles"):
+            d = same(ev, fld(got, field), fld(me, field))
+            if d:
+                pr.append("%s is not self's (%s)" % (field, d))
+        tag = getattr(fld(got, 'topology'), "tag", None)
+        if not (isinstance(tag, tuple) and tag[0] == "subset" and tag[1] is me._topology and tag[2] == (2, 0)):
+            pr.append("the topology is not self._topology.subset(atom_indices)")
+        if got._rmsd_traces is not None:
+            pr.append("cached traces of the full atom set are carried over")
+        return pr
+    run("Trajectory.atom_slice", "atom_slice([2, 0]): xyz[:, [2, 0]], same times and cell, subset topology, no cached traces", b_aslice, s_aslice)
+
+    def b_aslice_in():
+        return traj("a", 2, atoms=4, traces=True), {"atom_indices": [2, 0], "inplace": True}
+
+    def s_aslice_in(ev, me, kw, got):
+        pr = []
+        if got is not me:
+            pr.append("inplace=True does not return self")
+        orig = Ten.sym("a.x", (2, 4, 3))
+        d = same(ev, me._xyz, ev.getitem(orig, (slice(None), [2, 0])))
+        if d:
+            pr.append("self._xyz is not the atom subset (%s)" % d)
+        if me._rmsd_traces is not None:
+            pr.append("the cached traces survive the in-place atom slice")
+        tag = getattr(me._topology, "tag", None)
+        if not (isinstance(tag, tuple) and tag[0] == "subset"):
+            pr.append("the topology is not replaced by its subset")
+        return pr
+    run("Trajectory.atom_slice", "atom_slice([2, 0], inplace=True): self updated, cached traces dropped, returns self", b_aslice_in, s_aslice_in)
